@@ -175,6 +175,25 @@ type fsExp struct {
 	Ms []Node `json:"ms"`
 }
 
+// excerpt shows a (long) content around its first difference from b
+func excerpt(a, b string) string {
+	if len(a) <= 60 {
+		return fmt.Sprintf("%q", a)
+	}
+	i := 0
+	for i < len(a) && i < len(b) && a[i] == b[i] {
+		i++
+	}
+	lo, hi := i-10, i+30
+	if lo < 0 {
+		lo = 0
+	}
+	if hi > len(a) {
+		hi = len(a)
+	}
+	return fmt.Sprintf("(%d bytes, first difference at %d) ...%q...", len(a), i, a[lo:hi])
+}
+
 func fsMap(l []Node) map[string]string {
 	out := map[string]string{}
 	for _, f := range l {
@@ -300,7 +319,7 @@ func replayFSMain(args []string) int {
 				g, gok := got[n]
 				w, wok := want[n]
 				if gok != wok || g != w {
-					add(mk("fs", fmt.Sprintf("file %q: expected %v %q, got %v %q (mode %s)", n, wok, w, gok, g, nstr(c, "mode")), resp.Out))
+					add(mk("fs", fmt.Sprintf("file %q: expected %v %s, got %v %s (mode %s)", n, wok, excerpt(w, g), gok, excerpt(g, w), nstr(c, "mode")), resp.Out))
 					return
 				}
 			}
